@@ -45,6 +45,8 @@ def gen_regs(rng, case):
     def pats():
         if rng.random() < 0.3:
             return None
+        if rng.random() < 0.1:
+            return []           # an empty filter: selects (excludes) no function at all
         out = []
         for _ in range(rng.randint(1, 2)):
             k = rng.random()
